@@ -61,6 +61,8 @@ VF_HARNESS(potrf) {
   vf_assert(lapack_tri == user_tri, "LAPACK references exactly the triangle the user selected");
   L k = g_info == 0 ? n : g_info - 1;
   vf_assert(R.size() == k && R.base() == A.base(), "the returned view is the leading block up to the first non-positive minor");
+  vf_assert(R.stride() == s0 && boost::multi::detail::get<1>(R.strides()) == s1, "the returned block has the strides of the user's matrix (it aliases the factor in place)");
+  { L c1 = boost::multi::detail::get<1>(R.sizes()); vf_assert(c1 == k || c1 == n, "the returned block has k leading rows and either the k leading or all n columns (the library returns k x k for unit leading stride, k x n otherwise)"); }
   vf_reach("potrf");
 }
 
@@ -86,8 +88,9 @@ VF_HARNESS(geqrf) {   // row-major matrix (rows x cols, unit inner stride, padde
 
 #else
 VF_HARNESS(gesvd) {   // A rows x cols row-major; U rows x rows, V cols x cols, s min(rows, cols)
-  L rows = vf_range(1, NB); L cols = vf_range(1, NB); L pad = vf_range(0, PAD);
-  auto A = mk2(g_a, cols + pad, 1, rows, cols); auto U = mk2(g_u, rows + pad, 1, rows, rows); auto V = mk2(g_v, cols + pad, 1, cols, cols);
+  L rows = vf_range(1, NB); L cols = vf_range(1, NB); L pad = vf_range(0, PAD); L padu = vf_range(0, PAD); L padv = vf_range(0, PAD);
+  L oa = vf_range(0, 3); L ou = vf_range(0, 3); L ov = vf_range(0, 3);   // sub-blocks: independent origins and row paddings for A, U, V
+  auto A = mk2(g_a + oa, cols + pad, 1, rows, cols); auto U = mk2(g_u + ou, rows + padu, 1, rows, rows); auto V = mk2(g_v + ov, cols + padv, 1, cols, cols);
   L ns = rows < cols ? rows : cols;
   multi::subarray<double, 1> ss(multi::layout_t<1>(multi::layout_t<0>{}, 1, 0, ns), g_s);
   g_info = vf_range(0, 1); g_info2 = vf_range(0, 1); g_opt = vf_range(1, 4);
@@ -95,8 +98,8 @@ VF_HARNESS(gesvd) {   // A rows x cols row-major; U rows x rows, V cols x cols, 
   try { ml::gesvd(A, U, ss, V, ::A<double>()); } catch(...) { threw = true; }
   vf_assert(r_lwork1 == -1 && r_jobu == 'A' && r_jobvt == 'A', "workspace query first; all singular vectors requested");
   // LAPACK sees A^T (cols x rows): M = cols, N = rows; its U (M x M) is the user's V, its VT (N x N) the user's U
-  vf_assert(r_m == cols && r_n == rows && r_a == g_a && r_lda == cols + pad && r_lda >= maxl(1, r_m), "(M, N, a, lda) denote the user's matrix");
-  vf_assert(r_s == g_s && r_u == g_v && r_ldu == cols + pad && r_ldu >= maxl(1, r_m) && r_vt == g_u && r_ldvt == rows + pad && r_ldvt >= maxl(1, r_n), "only the documented outputs (s, U, V) are passed as outputs, with valid leading dimensions");
+  vf_assert(r_m == cols && r_n == rows && r_a == g_a + oa && r_lda == cols + pad && r_lda >= maxl(1, r_m), "(M, N, a, lda) denote the user's matrix");
+  vf_assert(r_s == g_s && r_u == g_v + ov && r_ldu == cols + padv && r_ldu >= maxl(1, r_m) && r_vt == g_u + ou && r_ldvt == rows + padu && r_ldvt >= maxl(1, r_n), "only the documented outputs (s, U, V) are passed as outputs, with valid leading dimensions");
   if(g_info == 0) { vf_assert(r_calls == 2 && r_lwork2 == g_opt && g_nalloc == 1 && g_blk_n[0] == g_opt, "workspace of the returned optimal size"); vf_assert(threw == (g_info2 != 0), "throws iff info != 0"); }
   else vf_assert(threw && g_nalloc == 0, "a failed query throws before any allocation");
   vf_assert(live_blocks() == 0, "the workspace is released exactly once on every path");
